@@ -144,6 +144,8 @@ Section Frame.
     destruct (a_close_obj p); [|split; [reflexivity|exact K]].
     destruct K as [K|K].
     - rewrite K. cbn [rcv]. change (r_state (wc ch sz o1)) with (r_state o1). rewrite K.
+      change (r_writer (wc ch sz o1)) with (r_writer o1).
+      destruct (r_writer o1) as [wr1|]; [|apply frame_ret_ok; exact K].
       rewrite error_wc. pose proof (error_closed o1 true c1) as K2. destruct (error o1 true c1) as [o2 c2].
       apply frame_closed. exact K2.
     - pose proof K as (K1 & _). destruct (r_state o1) eqn:S1; [congruence| | |]; cbn [rcv]; rewrite S1; apply frame_closed; exact K.
